@@ -786,10 +786,10 @@ func GenNasty(g G) *Scenario {
 		}
 		b.AddReverse(30)
 	}
-	if g.Pct(35) {
+	if g.Pct(45) {
 		b.Sc.Gens = GenGens(g, pal, true)
 	}
-	if g.Pct(30) {
+	if g.Pct(35) {
 		for i, n := 0, g.Int(1, 2); i < n; i++ {
 			b.Sc.Malformed = append(b.Sc.Malformed, Malformed{Kind: Pick(g, malformedKinds), Pos: g.Int(0, 6)})
 		}
